@@ -18,8 +18,8 @@
      * CoordinateSystem as a mutable object: the validating setters of origin / i_hat / j_hat
        (shape (3,) check, unit-norm check, assignment only after the checks), __init__, a
        history of assignments some of which are refused, k_hat, basis_matrix, convert_from_gcs /
-       convert_to_gcs on point arrays of any shape, convert_from_gcs_pairwise (broadcast of
-       an n-d point array against an n-d array of origins), translate, rotate, copy, isclose;
+       convert_to_gcs on point arrays of any shape, convert_from_gcs_pairwise (outer difference of
+       an n-d point array, n >= 1, against a 1-d array of origins; NotModelled otherwise), translate, rotate, copy, isclose;
      * distance_pairwise on Points objects: the dimension check in front of the blockwise
        function of Model/Blocks.v (C13).
 
@@ -35,7 +35,7 @@ Import ListNotations.
 (* NotModelled is NOT an exception: it marks an input outside the part of the function that
    the model describes (no theorem says anything about it) *)
 Inductive gerr := ValueError | IndexError | TypeError | AssertionError | ZeroDivisionError
-                | InvalidDimension | InvalidShape | NotModelled.
+                | InvalidDimension | InvalidShape | NotModelled | OverflowError.
 Definition res (A : Type) : Type := (gerr + A)%type.
 
 Definition of_blocks_err (e : Blocks.pyerr) : gerr :=
@@ -317,11 +317,23 @@ Section Glue.
   Definition go_numy (g : grid_obj) : nat := length (go_yvect g).
   Definition go_numz (g : grid_obj) : nat := length (go_zvect g).
 
-  (* Grid.resample(new_pixel_size) *)
+  (* Grid.resample(new_pixel_size) = self.__class__(self.xmin, ..., self.zmax, new_pixel_size).
+     The six bounds handed to the constructor are NUMPY scalars (xvect[0], xvect[-1], ...): on a
+     non-degenerate axis with a zero pixel size, (abs(xmax - xmin) + dx) / dx is then a numpy division
+     (a warning and inf, no ZeroDivisionError) and round(inf) raises OverflowError ("cannot convert float
+     infinity to integer"), at the place in the axis order where the constructor called with Python
+     floats raises ZeroDivisionError.  (The bounds of a constructed grid are finite, so the numerator is
+     a positive finite number.) *)
+  Definition np_zero_err (e : gerr) : gerr :=
+    match e with ZeroDivisionError => OverflowError | _ => e end.
   Definition grid_resample (g : grid_obj) (pixel : pixel_arg) : res grid_obj :=
     match vect_min (go_xvect g), vect_max (go_xvect g), vect_min (go_yvect g), vect_max (go_yvect g),
           vect_min (go_zvect g), vect_max (go_zvect g) with
-    | inr x0, inr x1, inr y0, inr y1, inr z0, inr z1 => grid_init x0 x1 y0 y1 z0 z1 pixel
+    | inr x0, inr x1, inr y0, inr y1, inr z0, inr z1 =>
+        match grid_init x0 x1 y0 y1 z0 z1 pixel with
+        | inl e => inl (np_zero_err e)
+        | inr r => inr r
+        end
     | _, _, _, _, _, _ => inl IndexError
     end.
 
@@ -424,13 +436,24 @@ Section Glue.
     nd_map (cs_convert_to_gcs N (c_origin c) (c_i c) (c_j c)) P.
 
   (* convert_from_gcs_pairwise(points_gcs, origins):
-       x = points_cs.x[..., newaxis] - origins.x[newaxis, ...]     shape = pshape ++ oshape *)
+       x = points_cs.x[..., newaxis] - origins.x[newaxis, ...]
+     For 1-d origins (m,) and points with at least one dimension this is the outer difference of
+     shape pshape ++ [m].  Outside that domain numpy BROADCASTS (pshape ++ [1]) against ([1] ++ oshape)
+     and the result is not an outer difference: 0-d origins with points (2,) give shape (2, 1);
+     origins (2, 1) with points (2,) give (1, 2, 1) with 2 entries; 0-d points with origins (1,) give
+     (1, 1).  The model states only the part it can state faithfully: outside the domain it answers
+     the marker NotModelled (no exception: the library returns arrays there) and no theorem speaks
+     about those inputs. *)
+  Definition pairwise_modelled (P origins : points T) : bool :=
+    (length (nd_shape origins) =? 1) && negb (length (nd_shape P) =? 0).
   Definition outer_sub (f : vec3 T -> T) (P O : points T) : nd T :=
     mkNd (nd_shape P ++ nd_shape O)
          (flat_map (fun p => map (fun o => f p - f o) (nd_data O)) (nd_data P)).
-  Definition c_convert_from_gcs_pairwise (c : cstate) (P origins : points T) : nd T * nd T * nd T :=
-    let Pcs := c_convert_from_gcs c P in
-    (outer_sub vx Pcs origins, outer_sub vy Pcs origins, outer_sub vz Pcs origins).
+  Definition c_convert_from_gcs_pairwise (c : cstate) (P origins : points T) : res (nd T * nd T * nd T) :=
+    if pairwise_modelled P origins then
+      let Pcs := c_convert_from_gcs c P in
+      inr (outer_sub vx Pcs origins, outer_sub vy Pcs origins, outer_sub vz Pcs origins)
+    else inl NotModelled.
 
   (* CoordinateSystem.translate(vector): Points(origin).translate(vector)[()] through the
      constructor.  origin + vector broadcasts: the result has shape (3,) — what the origin
